@@ -3,6 +3,9 @@
 (* Trace specification for recorded executions of the real TagIterator     *)
 (* (and TagIteratorAsync).  One step per recorded event.  MODE             *)
 (* (environment variable) selects what the events are checked against:     *)
+(*   LB   like L1, against the windowed reader ReaderBuf under the recorded   *)
+(*        read schedule: additionally buffer offset, position, valid length   *)
+(*        and capacity (verif-hooks) after every call;                        *)
 (*   L1   full conformance with the Level 1 design ReaderCore: every field  *)
 (*        of every result of every call is bound (statistic / diagnosis,    *)
 (*        never a verdict by itself);                                       *)
@@ -12,7 +15,7 @@
 (*        `end` event (the verdict).                                        *)
 (* A rejected case prints REJECT and is skipped up to the next `case`.     *)
 (***************************************************************************)
-EXTENDS TraceBase, ReaderCore
+EXTENDS TraceBase, ReaderBuf
 VARIABLES l,        \* next line of Rec to consume
           c,        \* current case: [n, sch, start (line of the case event), hdr]
           run,      \* current run: [inp, cfg, tag, start]
@@ -118,7 +121,12 @@ Init == l = 1 /\ c = [n |-> -1, sch |-> <<>>, start |-> 0, hdr |-> <<>>]
 StepCase(e) == /\ c' = [n |-> e.n, sch |-> e.schema, start |-> l, hdr |-> e] /\ skip' = FALSE
                /\ run' = [inp |-> <<>>, cfg |-> <<>>, tag |-> "", start |-> 0] /\ r' = InitReader /\ m' = Trivial
 StepRun(e)  == /\ run' = [inp |-> e.input, cfg |-> CfgOf(e.cfg), tag |-> e.tag, start |-> l]
-               /\ r' = InitReader /\ m' = MonInit /\ UNCHANGED <<c, skip>>
+               /\ r' = InitReader
+               /\ m' = IF Mode = "LB"
+                        THEN [ok |-> TRUE, why |-> "", s |-> InitBuf(CfgOf(e.cfg).cap0, e.sched),
+                              live |-> (\A i \in 1..Len(e.sched) : e.sched[i] >= -1) /\ ~("multi" \in DOMAIN e)]
+                        ELSE MonInit
+               /\ UNCHANGED <<c, skip>>
 StepNextL1(e) ==
   LET s == NextCall(c.sch, run.cfg, run.inp, r) IN
   IF ResEq(e, s.res) /\ (("st" \in DOMAIN e) => e.st.cap = Capacity(run.cfg.cap0, s.r)) THEN r' = s.r /\ UNCHANGED <<c, run, m, skip>>
@@ -127,6 +135,14 @@ StepRecoverL1(e) ==
   LET s == RecoverCall(c.sch, run.cfg, run.inp, r) IN
   IF (s.ok /\ e.res = "ok") \/ (~s.ok /\ e.res = "eof" /\ e.pos = s.e.pos) THEN r' = s.r /\ UNCHANGED <<c, run, m, skip>>
   ELSE Reject(l, <<"L1 recover", c.n, run.tag, "expected ok", s.ok>>) /\ skip' = TRUE /\ UNCHANGED <<c, run, r, m>>
+\* MODE = LB: the monitor variable carries the window state s of ReaderBuf (live: the schedule has no injected errors)
+StepNextLB(e) ==
+  IF ~m.live THEN UNCHANGED <<c, run, r, m, skip>>
+  ELSE LET n == NextCallB(c.sch, run.cfg, run.inp, r, m.s) IN
+  IF /\ ResEq(e, n.res)
+     /\ ("st" \in DOMAIN e) => /\ e.st.off = n.s.off /\ e.st.ipos = n.s.ipos /\ e.st.len = n.s.len /\ e.st.cap = n.s.cap
+  THEN r' = n.r /\ m' = [m EXCEPT !.s = n.s] /\ UNCHANGED <<c, run, skip>>
+  ELSE Reject(l, <<"LB next", c.n, run.tag, "expected", Brief(n.res), <<n.s.off, n.s.ipos, n.s.len, n.s.cap>>>>) /\ skip' = TRUE /\ UNCHANGED <<c, run, r, m>>
 StepMon(e) ==
   LET m1 == IF e.ev = "read" THEN MonRead(e) ELSE MonStep(e) IN
   IF m1.ok THEN m' = m1 /\ UNCHANGED <<c, run, r, skip>>
@@ -152,7 +168,7 @@ Explained(h, runs) ==
   THEN "DEV_ASYNC_STRADDLE"
   ELSE ""
 StepEnd(e) ==
-  LET runs == IF Mode = "L1" \/ ~("rel" \in DOMAIN c.hdr) THEN <<>> ELSE CollectRuns(c.start + 1, l - 1, <<>>)
+  LET runs == IF Mode \in {"L1", "LB"} \/ ~("rel" \in DOMAIN c.hdr) THEN <<>> ELSE CollectRuns(c.start + 1, l - 1, <<>>)
       why == IF runs = <<>> THEN "" ELSE Rel(c.hdr, runs) IN
   IF why = "" THEN UNCHANGED <<c, run, r, m, skip>>
   ELSE LET dev == Explained(c.hdr, runs) IN
@@ -169,6 +185,10 @@ Next ==
      ELSE IF e.ev = "end" THEN StepEnd(e)
      ELSE IF Mode = "L1" THEN
           (IF e.ev = "next" THEN StepNextL1(e) ELSE IF e.ev = "recover" THEN StepRecoverL1(e) ELSE UNCHANGED <<c, run, r, m, skip>>)
+     ELSE IF Mode = "LB" THEN
+          (IF e.ev = "next" THEN StepNextLB(e)
+           ELSE IF e.ev = "recover" THEN m' = [m EXCEPT !.live = FALSE] /\ UNCHANGED <<c, run, r, skip>>      \* try_recover is not part of ReaderBuf
+           ELSE UNCHANGED <<c, run, r, m, skip>>)
      ELSE IF e.ev \in {"next", "recover", "read"} THEN StepMon(e)
      ELSE UNCHANGED <<c, run, r, m, skip>>
 Spec == Init /\ [][Next]_vars
